@@ -56,7 +56,9 @@ func init() {
 		u.fact(and(fmt.Sprintf("(>= %s 0)", ln), fmt.Sprintf("(< %s 281474976710656)", ln)))
 		rvT := resTy.Underlying().(*types.Slice).Elem()
 		s, arr := u.freshSlice(st, rvT, ln, "mapkeys")
-		u.fact(fmt.Sprintf("(forall ((qi Int)) (! (and (rv_valid (select %s qi)) (rv_iskey %s (select %s qi)) (= (rv_type (select %s qi)) (keyT (rv_type %s)))) :pattern ((select %s qi))))", arr, v, arr, arr, v, arr))
+		u.fn("rv_key", []string{"RV", "Int"}, "RV")
+		u.fact(fmt.Sprintf("(forall ((qi Int)) (! (= (select %s qi) (rv_key %s qi)) :pattern ((select %s qi))))", arr, v, arr))
+		u.fact(fmt.Sprintf("(forall ((qi Int)) (! (and (rv_valid (rv_key %s qi)) (rv_iskey %s (rv_key %s qi)) (= (rv_type (rv_key %s qi)) (keyT (rv_type %s)))) :pattern ((rv_key %s qi))))", v, v, v, v, v, v))
 		return term(s, resTy)
 	})
 	reg("(reflect.Value).MapIndex", "Value.MapIndex(k): panics unless kind is Map and k is valid and assignable to the key type; result valid iff the key is present", func(fr *Frame, st *State, callee *ssa.Function, args []*Val, pos token.Pos, resTy types.Type) *Val {
@@ -109,7 +111,7 @@ func init() {
 		u := fr.u
 		t := args[0].T
 		rvDecls(u)
-		u.libpre(fr, st, "reflect.New", fmt.Sprintf("(distinct (typ %s) T_nil)", t), pos, "reflect.New(nil) panics")
+		u.libpre(fr, st, "reflect.New", fmt.Sprintf("(distinct (ityp %s) T_nil)", t), pos, "reflect.New(nil) panics")
 		r := freshRV(u, "rvnew")
 		tt := u.tagOfRtype(t)
 		u.fact(and(app("rv_valid", r), not(app("rv_isnil", r)), eq(app("rv_type", r), app("ptrTo", tt)), fmt.Sprintf("(= (kind (ptrTo %s)) 22)", tt), eq(app("elemT", app("ptrTo", tt)), tt)))
@@ -164,7 +166,7 @@ func init() {
 	reg("reflect.SliceOf", "reflect.SliceOf(t): panics for nil t", func(fr *Frame, st *State, callee *ssa.Function, args []*Val, pos token.Pos, resTy types.Type) *Val {
 		u := fr.u
 		t := args[0].T
-		u.libpre(fr, st, "reflect.SliceOf", fmt.Sprintf("(distinct (typ %s) T_nil)", t), pos, "reflect.SliceOf(nil) panics")
+		u.libpre(fr, st, "reflect.SliceOf", fmt.Sprintf("(distinct (ityp %s) T_nil)", t), pos, "reflect.SliceOf(nil) panics")
 		tt := app("sliceOf", u.tagOfRtype(t))
 		u.fact(and(fmt.Sprintf("(= (kind %s) 23)", tt), eq(app("elemT", tt), u.tagOfRtype(t))))
 		return term(u.rtypeOfTag(tt), resTy)
@@ -173,7 +175,7 @@ func init() {
 		u := fr.u
 		k, v := args[0].T, args[1].T
 		kt, vt := u.tagOfRtype(k), u.tagOfRtype(v)
-		u.libpre(fr, st, "reflect.MapOf", and(fmt.Sprintf("(distinct (typ %s) T_nil)", k), fmt.Sprintf("(distinct (typ %s) T_nil)", v), app("comparable", kt)), pos, "reflect.MapOf with nil or uncomparable key type panics")
+		u.libpre(fr, st, "reflect.MapOf", and(fmt.Sprintf("(distinct (ityp %s) T_nil)", k), fmt.Sprintf("(distinct (ityp %s) T_nil)", v), app("comparable", kt)), pos, "reflect.MapOf with nil or uncomparable key type panics")
 		tt := app("mapOf", kt, vt)
 		u.fact(and(fmt.Sprintf("(= (kind %s) 21)", tt), eq(app("elemT", tt), vt), eq(app("keyT", tt), kt)))
 		return term(u.rtypeOfTag(tt), resTy)
@@ -183,9 +185,9 @@ func init() {
 		t, ln, cp := args[0].T, args[1].T, args[2].T
 		rvDecls(u)
 		tt := u.tagOfRtype(t)
-		u.libpre(fr, st, "reflect.MakeSlice", and(fmt.Sprintf("(distinct (typ %s) T_nil)", t), fmt.Sprintf("(= (kind %s) 23)", tt), fmt.Sprintf("(<= 0 %s)", ln), fmt.Sprintf("(<= %s %s)", ln, cp)), pos, "reflect.MakeSlice of a non-slice type or with bad length panics")
+		u.libpre(fr, st, "reflect.MakeSlice", and(fmt.Sprintf("(distinct (ityp %s) T_nil)", t), fmt.Sprintf("(= (kind %s) 23)", tt), fmt.Sprintf("(<= 0 %s)", ln), fmt.Sprintf("(<= %s %s)", ln, cp)), pos, "reflect.MakeSlice of a non-slice type or with bad length panics")
 		r := freshRV(u, "rvmakeslice")
-		u.fact(and(app("rv_valid", r), eq(app("rv_type", r), tt), eq(app("rv_len", r), ln), fmt.Sprintf("(= (typ (rv_iface %s)) %s)", r, tt)))
+		u.fact(and(app("rv_valid", r), eq(app("rv_type", r), tt), eq(app("rv_len", r), ln), fmt.Sprintf("(= (ityp (rv_iface %s)) %s)", r, tt)))
 		fr.bumpNow(st)
 		return rvRet(r, resTy)
 	})
@@ -194,9 +196,9 @@ func init() {
 		t := args[0].T
 		rvDecls(u)
 		tt := u.tagOfRtype(t)
-		u.libpre(fr, st, "reflect.MakeMapWithSize", and(fmt.Sprintf("(distinct (typ %s) T_nil)", t), fmt.Sprintf("(= (kind %s) 21)", tt)), pos, "reflect.MakeMapWithSize of a non-map type panics")
+		u.libpre(fr, st, "reflect.MakeMapWithSize", and(fmt.Sprintf("(distinct (ityp %s) T_nil)", t), fmt.Sprintf("(= (kind %s) 21)", tt)), pos, "reflect.MakeMapWithSize of a non-map type panics")
 		r := freshRV(u, "rvmakemap")
-		u.fact(and(app("rv_valid", r), eq(app("rv_type", r), tt), not(app("rv_isnil", r)), fmt.Sprintf("(= (typ (rv_iface %s)) %s)", r, tt)))
+		u.fact(and(app("rv_valid", r), eq(app("rv_type", r), tt), not(app("rv_isnil", r)), fmt.Sprintf("(= (ityp (rv_iface %s)) %s)", r, tt)))
 		fr.bumpNow(st)
 		return rvRet(r, resTy)
 	})
@@ -342,8 +344,8 @@ func init() {
 				return term(r, resTy)
 			}
 			e := u.w.newConst("reerr", "Iface")
-			u.fact(eq(fmt.Sprintf("(= (typ %s) T_nil)", e), ok))
-			u.fact(implies(not(ok), and(fmt.Sprintf("(= (typ %s) %s)", e, u.w.opaqueTag("*syntax.Error", 22)), not(app(u.fn("as_ce_ok", []string{"Iface"}, "Bool"), e)))))
+			u.fact(eq(fmt.Sprintf("(= (ityp %s) T_nil)", e), ok))
+			u.fact(implies(not(ok), and(fmt.Sprintf("(= (ityp %s) %s)", e, u.w.opaqueTag("*syntax.Error", 22)), not(app(u.fn("as_ce_ok", []string{"Iface"}, "Bool"), e)))))
 			u.fact(implies(ok, eq(e, "nilIface")))
 			tup := resTy.(*types.Tuple)
 			return &Val{K: vTuple, Elems: []*Val{term(ite(ok, r, "nil"), tup.At(0).Type()), term(e, tup.At(1).Type())}}
@@ -376,7 +378,7 @@ func init() {
 			if sl, ok := t.Underlying().(*types.Slice); ok && len(x) > 0 && containsTag(x, u.w.tags[key]) {
 				hk := u.regA(sl.Elem())
 				_, ub := u.w.boxFn("Slice")
-				fr.frameCheckRef(st, fmt.Sprintf("(sdata (%s (val %s)))", ub, x), "sort", pos)
+				fr.frameCheckRef(st, fmt.Sprintf("(sdata (%s (ival %s)))", ub, x), "sort", pos)
 				u.havocHeap(st, hk, true, nil)
 				done = true
 			}
@@ -392,7 +394,7 @@ func init() {
 		k := u.regT(anyType)
 		u.havocHeap(st, k, true, nil)
 		e := u.w.newConst("jsonerr", "Iface")
-		u.fact(implies(fmt.Sprintf("(distinct (typ %s) T_nil)", e), not(app(u.fn("as_ce_ok", []string{"Iface"}, "Bool"), e))))
+		u.fact(implies(fmt.Sprintf("(distinct (ityp %s) T_nil)", e), not(app(u.fn("as_ce_ok", []string{"Iface"}, "Bool"), e))))
 		u.note("json.Unmarshal: every *any cell is havocked (target pointer not tracked precisely)")
 		return term(e, resTy)
 	})
